@@ -14,7 +14,8 @@ def run(ctx):
     ctx.run_shards(sh, timeout=3600)
     return ctx.finish(
         rule=("(1) clamp<identity<V^N>> for V in {int,unsigned,size_t,long,float,double}, N 1..4 (shows the delegated coordinate): seeded random "
-              "boxes lo<=hi (incl. lo=hi, negative, type extremes as bounds) x the extremes catalogue per axis {lo,hi,+-1 step around each, "
+              "boxes lo<=hi (incl. lo=hi, negative, type extremes as bounds; every fourth box written with ONE scalar per member -- every eighth with a scalar of "
+              "another arithmetic type, as in {{1},{5}} for longs or doubles; two of three fields reach their box by copy-/move-assignment over the previous one) x the extremes catalogue per axis {lo,hi,+-1 step around each, "
               "midpoint, type max/lowest and their neighbours, 0, 1, -1, +-inf, +-denorm_min, min normal, -0} crossed over the axes (complete "
               "up to 3000 tuples, sampled beyond) plus random bit patterns; oracle c<lo?lo:(hi<c?hi:c), numeric equality.  (2) clamp over "
               "strided/morton over array storage (unique id per cell, ASan + library assertions; every second field looked up through a dumped and reloaded copy) and over the index-recording probe storage "
